@@ -118,25 +118,25 @@ NOT_BUILT = "check not built yet in this revision of /verif (planned: see DESIGN
 
 # Workload dimensions added after the waves of independently written breaking changes.
 EXT = {
- "C16": "first starts of fresh services racing with API calls, concurrent Shutdown callers, C11 histories on fresh untyped store objects.",
+ "C16": "first starts of fresh services racing with API calls, concurrent Shutdown callers, C11 histories on fresh untyped store objects. Wave 9: overlapping index queries through a callback handing out one prepared IndexQuery value.",
  "C01": "With ids carrying an empty or non-empty query; a supervisor re-serving while Shutdown is still draining; groups that are exactly the first token's tag; the service root resource, the root of a mounted Mux, wildcard-in-mount groups and Parallel+Group handlers are among the routes; dirty stops; a directed scenario lets a query event expire while Shutdown is blocked behind a callback of the same group.",
- "C02": "worker counts 0 and -1 (the documented default); WithResource(request) submitted from inside handlers and a real-time order rule for With* submissions per group; 19 valid but unmatched ids incl. near misses around the service name and mount names for the With error rule; small in-channel configurations; baton ordering also for requests.",
- "C03": "a tight supervisor loop re-serving the instant the service is stopped (40 000 cycles on a lock-free connection); closed handler of the previous connection held until the next run; Shutdown completing while Serve is still subscribing, with a left-over Shutdown call held at its entry until the next run; first starts racing with API calls (race batch); 128 callers on an oversubscribed scheduler; start-up faults (the n-th subscription fails); 2-6 goroutines calling Shutdown at the same instant through a spin barrier (exactly one nil return, no panic, one Close); ListenAndServe cycles on an embedded NATS server ended by Shutdown or by the connection being closed.",
- "C04": "a service without logger and with OnError callback; bursts over an embedded NATS server with default-valued SetInChannelSize/SetWorkerCount; in-channel size 4 under concurrent load with unprocessed requests decided on state; services without queue group and with handlers on the root resource (responses counted per delivered copy); hot groups; panic(nil); a restart scenario with work queued behind busy workers at stop.",
- "C05": "services owning more than their own name (>), near-miss names around the service name; handler-built errors reusing every system code with own message/data; wrapped errors; root and lone-wildcard patterns; payloads corrupted from valid ones (trailing/leading garbage, truncation) with encoding/json's validator as oracle.",
- "C06": "child Mux with its own path mounted at a non-empty path; root pattern, lone > and lone placeholder patterns; listener-vs-handler placeholder name conflicts in both orders and across mounts; Parallel combined with Group.",
- "C07": "QueryHandlers on wildcard patterns of nameless services; Timeout with MaxInt64, sub-millisecond and odd durations; store.Handler workloads whose change/add events must carry RES values; malformed event names and non-conformant connection ids must be refused; marshalers failing with wrapped/typed-nil errors; resource replies whose rid needs JSON escapes.",
+ "C02": "worker counts 0 and -1 (the documented default); WithResource(request) submitted from inside handlers and a real-time order rule for With* submissions per group; 19 valid but unmatched ids incl. near misses around the service name and mount names for the With error rule; small in-channel configurations; baton ordering also for requests. Wave 9: twelve restarts on an embedded NATS server whose closed-handler calls are all held and let go while eight producers submit (exactly-once and order per producer).",
+ "C03": "a tight supervisor loop re-serving the instant the service is stopped (40 000 cycles on a lock-free connection); closed handler of the previous connection held until the next run; Shutdown completing while Serve is still subscribing, with a left-over Shutdown call held at its entry until the next run; first starts racing with API calls (race batch); 128 callers on an oversubscribed scheduler; start-up faults (the n-th subscription fails); 2-6 goroutines calling Shutdown at the same instant through a spin barrier (exactly one nil return, no panic, one Close); ListenAndServe cycles on an embedded NATS server ended by Shutdown or by the connection being closed. Wave 9: ListenAndServe cycles ended by Shutdown with a callback kept in flight until the connection's closed handler has arrived, Shutdown under a watchdog.",
+ "C04": "a service without logger and with OnError callback; bursts over an embedded NATS server with default-valued SetInChannelSize/SetWorkerCount; in-channel size 4 under concurrent load with unprocessed requests decided on state; services without queue group and with handlers on the root resource (responses counted per delivered copy); hot groups; panic(nil); a restart scenario with work queued behind busy workers at stop. Wave 9: services owning more than their own name space answering requests for names shorter than / prefixes of the service name; error replies with empty message, empty code and a nil *res.Error.",
+ "C05": "services owning more than their own name (>), near-miss names around the service name; handler-built errors reusing every system code with own message/data; wrapped errors; root and lone-wildcard patterns; payloads corrupted from valid ones (trailing/leading garbage, truncation) with encoding/json's validator as oracle. Wave 9: resource names shorter than the service name; a goroutine doing Mux lookups during every dispatch configuration.",
+ "C06": "child Mux with its own path mounted at a non-empty path; root pattern, lone > and lone placeholder patterns; listener-vs-handler placeholder name conflicts in both orders and across mounts; Parallel combined with Group. Wave 9: duplicated-placeholder patterns offered to a Mux that already holds placeholders at those positions; every handler's OnRegister callback must be told its full pattern exactly once in every arrangement, stand-alone trees attached to a service last.",
+ "C07": "QueryHandlers on wildcard patterns of nameless services; Timeout with MaxInt64, sub-millisecond and odd durations; store.Handler workloads whose change/add events must carry RES values; malformed event names and non-conformant connection ids must be refused; marshalers failing with wrapped/typed-nil errors; resource replies whose rid needs JSON escapes. Wave 9: error values with empty message, empty code, both empty and a nil *res.Error in the reply alphabet.",
  "C08": "every reserved event name; apply handlers failing with predefined and handler-built library errors; nil-payload and malformed-name custom events; root resources (service and mounted Mux) as event targets; Handler.Listeners keyed by another handler's pattern.",
- "C09": "ListenAndServe with reconnection observed on the connection; ownership re-applied on the running service before ResetAll; handler layouts (only the root pattern; kinds only below a literal/placeholder resource with other kinds); ownership set twice (explicit then nil) and changed between two runs of the same Service.",
- "C10": "Init over an already stored id; reference rids with boundary characters (~ ! }); handlers registered on a Mux mounted two levels deep; chains of 2-3 mutations in one write transaction with a client model that drops on delete and refetches on create; transformers that reject unexpected value types; array data values.",
+ "C09": "ListenAndServe with reconnection observed on the connection; ownership re-applied on the running service before ResetAll; handler layouts (only the root pattern; kinds only below a literal/placeholder resource with other kinds); ownership set twice (explicit then nil) and changed between two runs of the same Service. Wave 9: the same Service stopped and served again twice with nothing reconfigured in between.",
+ "C10": "Init over an already stored id; reference rids with boundary characters (~ ! }); handlers registered on a Mux mounted two levels deep; chains of 2-3 mutations in one write transaction with a client model that drops on delete and refetches on create; transformers that reject unexpected value types; array data values. Wave 9: every case ends with a mutation the store must refuse (Create on an existing id, Update/Delete on a missing one): it fails, publishes nothing, changes nothing.",
  "C11": "three BeforeChange listeners with the veto in the middle; listener-less stores; wrong-type values of a same-named foreign type; unencodable values; generated ids.",
- "C12": "a seed id created and updated by the application before the first successful Init; unencodable values in Create/Update and in an Init seed must fail and change nothing (or be present if acknowledged).",
- "C13": "multi-mutation transactions; empty non-nil keys; keys and prefixes with 0xFF bytes; a burst against a slowed index worker until more index updates are outstanding than the queue holds; a large store (hundreds of hits) with limits around the internal buffer size.",
- "C14": "query handlers on a Mux mounted two levels deep; a Parallel query resource whose query requests are sent at once; Init over an already stored seed id; multi-mutation transactions; empty non-nil keys; per-id callback order through an index queue overflow burst.",
- "C15": "query request payloads with trailing bytes; non-positive configured durations; shutdown (and restart) with active query events, listener goroutines must end; barrage of back-to-back requests across the expiry decided on the wire log; QueryEvent without connection (before Serve / after Shutdown); query events sent from resources that carry a query; restart with a changed query event duration.",
- "C17": "every byte value in every position of short names; routing vs Pattern.Matches around the Mux path boundary; Mount and Route paths; mid-token wildcard characters in resource ids; tag maps whose values start with $.",
+ "C12": "a seed id created and updated by the application before the first successful Init; unencodable values in Create/Update and in an Init seed must fail and change nothing (or be present if acknowledged). Wave 9: histories in which the application creates every seed id before the first Init, and in which the first Init has no seeds.",
+ "C13": "multi-mutation transactions; empty non-nil keys; keys and prefixes with 0xFF bytes; a burst against a slowed index worker until more index updates are outstanding than the queue holds; a large store (hundreds of hits) with limits around the internal buffer size. Wave 9: every history ends with an Init offering other keys for all its ids plus new ones.",
+ "C14": "query handlers on a Mux mounted two levels deep; a Parallel query resource whose query requests are sent at once; Init over an already stored seed id; multi-mutation transactions; empty non-nil keys; per-id callback order through an index queue overflow burst. Wave 9: subscribed queries with key filter and window together (entries the filter rejects before and inside the window).",
+ "C15": "query request payloads with trailing bytes; non-positive configured durations; shutdown (and restart) with active query events, listener goroutines must end; barrage of back-to-back requests across the expiry decided on the wire log; QueryEvent without connection (before Serve / after Shutdown); query events sent from resources that carry a query; restart with a changed query event duration. Wave 9: query callbacks answering with an error without message and with a nil *res.Error.",
+ "C17": "every byte value in every position of short names; routing vs Pattern.Matches around the Mux path boundary; Mount and Route paths; mid-token wildcard characters in resource ids; tag maps whose values start with $. Wave 9: every pattern re-offered to a Mux (direct and mounted) already holding patterns with other tag names or * at the same positions; id transformer round trip on the pattern told to a bottom-up registered handler.",
  "C18": "rids with boundary characters in classification texts; near-neighbour value pairs (case flips, one character changed) for Equal; random JSON whitespace (incl. CR) around data values and non-whitespace control characters in front; the input buffer is overwritten right after Unmarshal returns; call-only access results; escaped rids.",
- "C19": "raw JSON request values that are not JSON; twelve pre-responses before the response; NATS-style non-blocking burst delivery before the inbox is read; response 5 ms behind a pre-response on the embedded server; connection errors that are themselves *res.Error; repeated identical timeout pre-responses; later messages after the returned one.",
+ "C19": "raw JSON request values that are not JSON; twelve pre-responses before the response; NATS-style non-blocking burst delivery before the inbox is read; response 5 ms behind a pre-response on the embedded server; connection errors that are themselves *res.Error; repeated identical timeout pre-responses; later messages after the returned one. Wave 9: replies whose first byte lies next to but outside a-z/A-Z (ASCII neighbours, byte order mark, bytes 0x80-0xFF).",
  "C20": "bursts of unawaited gets over all resources of a handler with padded values; values with the same spelling and different JSON type; default collections of 0-5 items; create on a default-only resource; index keys with 0xFF bytes in reverse query collections.",
 }
 
